@@ -62,8 +62,8 @@ Accepts(t, x) ==
 
 DeadExp == [alive |-> FALSE, sh |-> 0, f |-> 0, pt |-> <<>>, wt |-> <<>>, seb |-> <<>>,
             retk |-> 0, retv |-> 0, lo |-> 0, hi |-> 0, n |-> 0, rep |-> FALSE,
-            linked |-> FALSE, qs |-> <<>>, flo |-> 0, fhi |-> 0, allq |-> <<>>, nest |-> <<-1, 0, 0, 0>>]
-DeadMon == [alive |-> FALSE, obj |-> 0, died |-> FALSE, n |-> 0, qs |-> <<>>, nq |-> 0]
+            linked |-> FALSE, qs |-> <<>>, flo |-> 0, fhi |-> 0, allq |-> <<>>, nest |-> <<-1, 0, 0, 0>>, scoped |-> FALSE]
+DeadMon == [alive |-> FALSE, obj |-> 0, died |-> FALSE, n |-> 0, qs |-> <<>>, nq |-> 0, scoped |-> FALSE]
 
 InitSt ==
   [exp    |-> [s \in Slots |-> DeadExp],
@@ -255,7 +255,8 @@ ExpectStep(st, a) ==
                    !.exp[s] = [alive |-> TRUE, sh |-> shp, f |-> tab.fn, pt |-> pt, wt |-> wt, seb |-> seb,
                                retk |-> tab.retk, retv |-> a[17], lo |-> lo, hi |-> hi, n |-> 0,
                                rep |-> FALSE, linked |-> TRUE, qs |-> qs, flo |-> lo, fhi |-> hi, allq |-> qs,
-                               nest |-> IF Len(a) >= 25 THEN <<a[22], a[23], a[24], a[25]>> ELSE <<-1, 0, 0, 0>>],
+                               nest |-> IF Len(a) >= 25 THEN <<a[22], a[23], a[24], a[25]>> ELSE <<-1, 0, 0, 0>>,
+                               scoped |-> FALSE],
                    !.act[m][tab.fn] = <<s>> \o @,
                    !.pend = [q \in Seqs |-> IF q \in Range(qs) THEN Append(st.pend[q], s) ELSE st.pend[q]]],
                 obs |-> Obs0]
@@ -343,7 +344,7 @@ IsCompleted(st, q) == \A i \in 1..Len(st.pend[q]) : HSat(st, st.pend[q][i])
 WCreateStep(st, k, o) ==      \* the monitor exists and the object knows it; sequence registration follows (wreg)
   IF ~(k \in Mons /\ o \in Objs) THEN Skip(st) ELSE
   IF st.mon[k].alive \/ ~st.obj[o].alive THEN Skip(st)
-  ELSE [st |-> [st EXCEPT !.mon[k] = [alive |-> TRUE, obj |-> o, died |-> FALSE, n |-> 0, qs |-> <<>>, nq |-> 0],
+  ELSE [st |-> [st EXCEPT !.mon[k] = [alive |-> TRUE, obj |-> o, died |-> FALSE, n |-> 0, qs |-> <<>>, nq |-> 0, scoped |-> FALSE],
                           !.obj[o].mons = <<k>> \o @],
         obs |-> Obs0]
 WRegStep(st, k, q) ==
@@ -356,7 +357,7 @@ WatchStep(st, a) ==
   LET qs == SubSeq(<<a[4], a[5]>>, 1, nq) IN
   IF st.mon[k].alive \/ ~st.obj[o].alive \/ (\E i \in 1..nq : ~(qs[i] \in Seqs) \/ ~st.qalive[qs[i]]) THEN Skip(st)
   ELSE [st |-> [st EXCEPT
-           !.mon[k] = [alive |-> TRUE, obj |-> o, died |-> FALSE, n |-> 0, qs |-> qs, nq |-> nq],
+           !.mon[k] = [alive |-> TRUE, obj |-> o, died |-> FALSE, n |-> 0, qs |-> qs, nq |-> nq, scoped |-> FALSE],
            !.obj[o].mons = <<k>> \o @,
            !.pend = [q \in Seqs |-> IF q \in Range(qs) THEN Append(st.pend[q], MonH(k)) ELSE st.pend[q]]],
         obs |-> Obs0]
@@ -415,6 +416,12 @@ Step(st, ev) ==
     [] ev.e = "seq"     -> IF a[1] \in Seqs /\ ~st.qalive[a[1]]
                            THEN [st |-> [st EXCEPT !.qalive[a[1]] = TRUE, !.pend[a[1]] = <<>>], obs |-> Obs0] ELSE Skip(st)
     [] ev.e = "expect"  -> ExpectStep(st, a)
+    [] ev.e = "sexpect" -> \* scoped macro form: same expectation; it is a local of a block, so its flags cannot be queried
+                           LET r == ExpectStep(st, a) IN
+                           IF r.obs.skip = 1 \/ r.obs.thr # "" THEN r
+                           ELSE [st |-> [r.st EXCEPT !.exp[a[1]].scoped = TRUE], obs |-> r.obs]
+    [] ev.e = "swatch"  -> LET r == WatchStep(st, a) IN
+                           IF r.obs.skip = 1 THEN r ELSE [st |-> [r.st EXCEPT !.mon[a[1]].scoped = TRUE], obs |-> r.obs]
     [] ev.e = "call"    -> IF a[1] \in Mocks /\ a[2] \in Fns /\ st.malive[a[1]]
                            THEN CallStep(st, a[1], a[2], IF a[2] = 3 THEN <<a[3], a[4]>> ELSE <<a[3]>>)
                            ELSE Skip(st)
@@ -461,11 +468,11 @@ Step(st, ev) ==
 
 (* ---- projected state, as the public API shows it ---- *)
 Flags(st) ==
-  LET S == {s \in Slots : st.exp[s].alive}
+  LET S == {s \in Slots : st.exp[s].alive /\ ~st.exp[s].scoped}
       ss == SeqToSetSeq(S)
   IN  [i \in 1..Len(ss) |-> <<ss[i], B2I(st.exp[ss[i]].n >= st.exp[ss[i]].lo), B2I(st.exp[ss[i]].n = st.exp[ss[i]].hi)>>]
 MonFlags(st) ==
-  LET ks == SeqToSetSeq({k \in Mons : st.mon[k].alive})
+  LET ks == SeqToSetSeq({k \in Mons : st.mon[k].alive /\ ~st.mon[k].scoped})
   IN  [i \in 1..Len(ks) |-> <<ks[i], B2I(st.mon[ks[i]].died), B2I(st.mon[ks[i]].died)>>]
 Completed(st) ==
   LET qs == SeqToSetSeq({q \in Seqs : st.qalive[q]})
